@@ -412,3 +412,9 @@ _PENDING = ("check under construction (model planned in DESIGN.md section 5); no
             "and pass on the unchanged tree")
 for _p in []:
     NOT_CLAIMED[_p] = _PENDING
+
+
+# Thorough tiers that exist in the check (`bin/check Cxx --tier thorough`) but were NOT re-validated end to end on the final tree of this round
+# (their matrices were restructured late, or an earlier thorough run met a hang that has since been routed): not registered as thorough_cmd
+# until a complete clean run exists.  The quick tier of each is validated (several seeds, vp check).
+NO_THOROUGH = ("C01", "C04", "C08", "C27")
